@@ -7,6 +7,7 @@ From QV.Base Require Res.
 From QV.Enc Require EncModel EncSpec.
 From QV.Tree Require TreeModel QTree TreeSpec.
 From QV.Harr Require HarrModel HarrSpec.
+From QV.Str Require StrModel StrSpec.
 Extraction Blacklist List String Int.
 Extraction "../ocaml/gen/enc_model.ml" Res.num_anchor
    EncModel.url_encode EncModel.url_dec_buf EncModel.url_decode EncModel.hex_encode EncModel.hex_dec_buf EncModel.hex_decode
@@ -16,3 +17,9 @@ Extraction "../ocaml/gen/tree_model.ml" Res.num_anchor
    TreeModel.check_model TreeModel.find_cost TreeModel.elements QTree.byte_cmp QTree.init QTree.step QTree.ncmp QTree.probe TreeSpec.sstep TreeSpec.sinit.
 Extraction "../ocaml/gen/harr_model.ml" Res.num_anchor
    HarrModel.init HarrModel.xstep HarrModel.getS HarrModel.get HarrSpec.sstep HarrSpec.aused HarrSpec.adel HarrSpec.aget.
+Extraction "../ocaml/gen/str_model.ml" Res.num_anchor
+   StrModel.qstrtrim StrModel.qstrtrim_head StrModel.qstrtrim_tail StrModel.qstrunchar StrModel.qstrreplace StrModel.qstrcpy StrModel.qstrncpy
+   StrModel.qstrdup_between StrModel.qmemdup StrModel.qstrgets StrModel.qstrrev StrModel.qstrupper StrModel.qstrlower StrModel.qstrtok StrModel.qstrtokenizer
+   StrSpec.trim_spec StrSpec.trim_head_spec StrSpec.trim_tail_spec StrSpec.unchar_spec StrSpec.replace_tok_spec StrSpec.replace_str_spec StrSpec.strcpy_spec
+   StrSpec.strncpy_spec StrSpec.gets_spec StrSpec.upper_spec StrSpec.lower_spec StrSpec.tokenize_spec StrSpec.strtok_spec
+   StrModel.qstr_comma_number StrSpec.comma_spec.
